@@ -26,6 +26,7 @@ def pool_rows(torch, e, seed, dt):
     if not e.has("bounded01") and not e.has("discrete"):
         x[0] = x[0] * 0.2          # well inside any tail bound
         x[1] = x[1] * 3.0 + 0.5    # reaches into the tails
+        x[3] = torch.sign(x[3]) * (25.0 + x[3].abs())   # far out in every coordinate (densities ~ exp(-300))
         y[0] = y[0] * 0.2 if e._y is None else y[0]
     c = e.ctx(4, seed, dt)
     return x, y, c
@@ -43,13 +44,16 @@ def zoo_task(t):
     out = {"n": 0, "fails": [], "skipped": []}
     for name in names:
         e = Z[name]
-        dt = torch.float32 if e.has("umnn") else torch.float64
-        tol = 2e-4 if e.has("umnn") else 1e-9
-        variants = ["prepared"] + (["pristine"] if e.has("needs_init") else [])
-        for variant in variants:
+        # densities also in single precision, where a row 300 nats down the tail underflows unless the
+        # reduction is stabilised row by row
+        dts = [torch.float32] if e.has("umnn") else [torch.float64] + ([torch.float32] if e.kind in ("dist", "flow") and not e.has("discrete") else [])
+        for dt, variant in [(d_, v_) for d_ in dts for v_ in ["prepared"] + (["pristine"] if e.has("needs_init") and d_ == dts[0] else [])]:
+            tol = 2e-4 if dt == torch.float32 else 1e-9
+            if dt == torch.float32 and not e.has("umnn"):
+                variant = "prepared/float32"
             try:
                 m0 = e.build(seed)
-                if variant == "prepared":
+                if variant.startswith("prepared"):
                     zoo.prepare(e, m0, seed)
                 sd0 = {k: v.clone() for k, v in m0.state_dict().items()}
             except Exception as ex:  # noqa
@@ -86,6 +90,37 @@ def zoo_task(t):
                 try:
                     singles = {i: run_op(op, [i]) for i in range(4)}
                 except Exception as ex:  # noqa
+                    # a row that cannot be evaluated alone although the same rows evaluate as a batch: the
+                    # result of a row is then not a function of the row
+                    try:
+                        whole = run_op(op, [0, 1, 2, 3])
+                        ok = all(bool(torch.isfinite(t_).all()) for t_ in whole)
+                    except Exception:  # noqa
+                        ok = False
+                    if not ok and dt == torch.float64:
+                        # the model as built (single precision), same question
+                        def run32(idx):
+                            m = e.build(seed + 31)
+                            m.load_state_dict(sd0)
+                            m.eval()
+                            xin = (y if op == "inverse" else x)[idx].float()
+                            cin = c[idx].float() if c is not None else None
+                            with torch.no_grad():
+                                r = getattr(m, op)(xin, cin) if cin is not None else getattr(m, op)(xin)
+                            return [t_.detach() for t_ in (r if isinstance(r, (tuple, list)) else (r,))]
+
+                        try:
+                            run32([0])
+                        except Exception as ex32:  # noqa
+                            try:
+                                ok = all(bool(torch.isfinite(t_).all()) for t_ in run32([0, 1, 2, 3]))
+                                ex = ex32
+                            except Exception:  # noqa
+                                ok = False
+                    if ok:
+                        out["n"] += 1
+                        out["fails"].append({"name": name, "op": op, "variant": variant, "comp": [1], "seed": seed, "clause": "row_alone_raises", "detail": "%s %s (%s): a single row raises %r, the batch of all four rows evaluates" % (name, op, variant, ex)})
+                        break
                     out["skipped"].append("%s %s (%s): single-row evaluation raised %r" % (name, op, variant, ex))
                     continue
                 if not all(bool(torch.isfinite(t_).all()) for r in singles.values() for t_ in r):
